@@ -52,7 +52,7 @@ namespace
   void unitb_vectors(verif::Ctx& c, const std::string& kname)
   {
     const int N = c.thorough ? 5 : 4;
-    for(int n = 0; n <= N; ++n) for(unsigned S = 0; S < (1u << n); ++S) for(int order = 0; order < NUM_ORD; ++order) for(int fd = 0; fd < FD_CONVERT; ++fd)
+    for(int n = 0; n <= N; ++n) for(unsigned S = 0; S < (1u << n); ++S) for(int order = 0; order < NUM_ORD; ++order) for(int fd = 0; fd < NUM_FD; ++fd)
     for(int ign = 0; ign < 2; ++ign) for(unsigned nm = 0; nm < (1u << BS); ++nm) for(int op = 0; op < 4; ++op)
     {
       if(order == ORD_ARRAY && S == 0) continue;
@@ -65,7 +65,16 @@ namespace
       c.desc([&]{ return kname + " blocks=" + std::to_string(n) + " constrained=" + set_name(S, n) + " built by: " + ord_name[order] + " filter=" + fd_name[fd] + " ignore_nans=" + std::to_string(ign) + " nan-mask=" + std::to_string(nm) + " op=" + fop_name[op]; });
       RUnitB ref, rtwin, rother;
       std::vector<std::shared_ptr<void>> keep;
-      auto f = derive_filter(make_unitb<DT, BS>(n, S, order, ign != 0, nm, ref), fd, keep, [&]{ return make_unitb<DT, BS>(n, ~S & ((1u << n) - 1u), ORD_ASC, false, 0, rother, 2); });
+      typedef typename std::conditional<std::is_same<DT, double>::value, float, double>::type DT2;
+      UnitFilterBlocked<DT, Index, BS> f;
+      if(fd == FD_CONVERT)
+      {
+        auto src = std::make_shared<UnitFilterBlocked<DT2, Index, BS>>(make_unitb<DT2, BS>(n, S, order, ign != 0, nm, ref)); keep.push_back(src);
+        f = make_unitb<DT, BS>(n, ~S & ((1u << n) - 1u), ORD_ASC, false, 0, rother, 2);
+        f.convert(*src);
+      }
+      else
+        f = derive_filter(make_unitb<DT, BS>(n, S, order, ign != 0, nm, ref), fd, keep, [&]{ return make_unitb<DT, BS>(n, ~S & ((1u << n) - 1u), ORD_ASC, false, 0, rother, 2); });
       DenseVectorBlocked<DT, Index, BS> v{Index(n)};
       for(int i = 0; i < n * BS; ++i) v.template elements<Perspective::pod>()[i] = DT(xval(Index(i), 1));
       // the filter operation is the first access to the freshly built (unsorted) filter
